@@ -108,9 +108,6 @@ func c09xCanonFloats(enc string) string {
 	return strings.Join(ws, " ")
 }
 
-func c09xHasEmptyStruct(enc string) bool {
-	return strings.Contains(" "+enc+" ", " < > ")
-}
 
 func c09xHasRef(enc string) bool {
 	return strings.HasPrefix(enc, "r") || strings.Contains(enc, " r")
@@ -492,14 +489,6 @@ func c09xEval(cs *c09xCase, reps []string) (fails []Violation, wf, val, checked 
 	if !(wf && val) {
 		return
 	}
-	if c09xHasEmptyStruct(cs.enc) {
-		// TODO(model): Martian.FormatExp.wf accepts `.struct []` and norm keeps it, but an empty
-		// MapExp{Kind: KindStruct} prints as `{}`, which the grammar reads as an empty KindMap
-		// (map_exp: '{' '}').  Until norm maps `.struct []` to `.map []` (or wf excludes it) the
-		// round-trip monitors are not applied to expressions that hold an empty struct literal;
-		// checks 1 and 2 still are.
-		return
-	}
 	checked = true
 	if !rok {
 		fails = append(fails, Violation{Kind: "property", Key: "C09:exp-reparse",
@@ -509,7 +498,7 @@ func c09xEval(cs *c09xCase, reps []string) (fails []Violation, wf, val, checked 
 	}
 	if want := c09xCanonFloats(reps[2]); renc != want {
 		fails = append(fails, Violation{Kind: "property", Key: "C09:exp-ast-changed",
-			What:  "reading back the printed text of a well-formed value expression gives a different expression (beyond nil array -> null and integral float -> int)",
+			What:  "reading back the printed text of a well-formed value expression gives a different expression (beyond nil array -> null, integral float -> int, empty struct literal -> empty map)",
 			Input: cs.input(), Impl: renc, Expect: want, Broken: "Props.C09.parse_format_exp"})
 	}
 	if again, pan2 := c09xFormat(ast, cs.prefix); pan2 != "" || again != cs.text {
@@ -1002,6 +991,28 @@ func c09Exprs(c *Ctx) {
 	}
 	c09xCheckTexts(c, rp, corpus, "corpus")
 
+	// a map expression without a value (MapExp{Value: nil}) is printed like the other absent
+	// values, as `null` (not modelled: the model's maps always have a value); monitored on the
+	// real code: the text must be accepted by ParseValExp and read back as null
+	for _, kind := range []syntax.ExpKind{syntax.KindMap, syntax.KindStruct} {
+		text, pan := c09xFormat(&syntax.MapExp{Kind: kind}, "")
+		r.count("exp:nil-map:"+string(kind), true)
+		r.hist("exp:nil-map")
+		ok := false
+		if pan == "" {
+			var ps syntax.Parser
+			if ast, err := ps.ParseValExp([]byte(text)); err == nil {
+				_, ok = ast.(*syntax.NullExp)
+			}
+		}
+		if !ok {
+			r.violate(Violation{Kind: "property", Key: "C09:exp-reparse:nil-map",
+				What:   "FormatExp of a map expression without a value (MapExp{Value: nil}) prints a text ParseValExp does not read back as null",
+				Input:  map[string]string{"exp": "&syntax.MapExp{Kind: \"" + string(kind) + "\"}", "prefix": ""},
+				Impl:   text + pan, Expect: "null", Broken: "C09 monitor: printed value expressions re-parse"})
+		}
+	}
+
 	// ---- A. generated expressions ----
 	nA, nB := 2500, 6000
 	if c.Thorough {
@@ -1039,8 +1050,6 @@ func c09Exprs(c *Ctx) {
 			r.hist("exp:kind:" + c09xKind(cs.e))
 			if checked {
 				r.hist("exp:roundtrip-checked")
-			} else if wf && val {
-				r.hist("exp:roundtrip-skipped-empty-struct")
 			}
 			if (done+i)%500 == 0 {
 				r.sample(map[string]string{"exp": cs.enc, "text": cs.text})
